@@ -237,7 +237,7 @@ def run(ctx):
                 raise MachineryError(res.error_trace)
     if ctx.only in (None, 'c2s'):
         wd = str(ctx.tmpdir('c12_'))
-        n = 40 if quick else 500
+        n = 40 if quick else 1500
         cases = [gen_case(rng) for _ in range(n)]
         schemes = ['structural', 'reversed', 'shared']
         jobs = [(c, schemes[i % 3], wd, None) for i, c in enumerate(cases)]
